@@ -21,7 +21,11 @@ import warnings
 from collections.abc import AsyncGenerator, Coroutine, Generator
 
 DEFAULT_ROW = [[[], ['r', 'none']], [[], ['x', 'same']], [[], ['x', 'same']], [[], ['x', 'same']]]
-USER = [ValueError, KeyError, ZeroDivisionError]
+class UserBase(BaseException):
+    """a throwable that is no Exception (like KeyboardInterrupt, SystemExit, asyncio.CancelledError)"""
+
+
+USER = [ValueError, KeyError, ZeroDivisionError, UserBase]
 KINDS = ('gen', 'coro', 'agen')
 # variant -> (objOk, chk) as the Lean driver names them
 VARIANTS = {
